@@ -8,13 +8,20 @@ use std::net::{IpAddr, Ipv4Addr};
 use std::sync::Arc;
 use std::time::Duration;
 
+/// address ids are spread over the three kinds of client address a dual-stack server sees: IPv4, IPv6 and IPv4-mapped
+/// IPv6 (`::ffff:a.b.c.d`) — distinct `IpAddr` values must stay distinct clients (seeded change C17-r10 keyed the
+/// reporter's table by `to_canonical()` while `merge` compares the raw addresses)
 fn ip(a: u8) -> IpAddr {
-    IpAddr::V4(Ipv4Addr::new(10, 0, 0, a))
+    match a % 3 {
+        0 => IpAddr::V4(Ipv4Addr::new(10, 0, 0, a)),
+        1 => IpAddr::V6(std::net::Ipv6Addr::new(0x2001, 0xdb8, 0, 0, 0, 0, 0, a as u16)),
+        _ => IpAddr::V6(Ipv4Addr::new(10, 0, 1, a).to_ipv6_mapped()),
+    }
 }
 fn addr_of(ip: &IpAddr) -> u8 {
     match ip {
         IpAddr::V4(v) => v.octets()[3],
-        _ => 255,
+        IpAddr::V6(v) => v.octets()[15],
     }
 }
 
